@@ -490,11 +490,13 @@ impl Ord for Repeat {
 }
 
 impl Repeat {
-    pub(super) fn as_ordinal(&self) -> u32 {
+    // Wider than the repeat count so that `Infinite` sorts above every `Times` value and adding
+    // the initial cycle to `Times(u32::MAX)` cannot overflow.
+    pub(super) fn as_ordinal(&self) -> u64 {
         match self {
             Repeat::None => 0,
-            Repeat::Times(value) => *value,
-            Repeat::Infinite => u32::MAX,
+            Repeat::Times(value) => *value as u64,
+            Repeat::Infinite => u64::MAX,
         }
     }
 }
